@@ -2289,6 +2289,26 @@ def subst(t, mapping: Dict[Term, Term]):
             return a
         if r[1] == "bool" and _int_const(a) is not None:
             return TRUE if _int_const(a) != 0 else FALSE
+
+    def _closed_key(x):
+        return isinstance(x, tuple) and x and (x[0] in ("enum", "const") or number(x) is not None)
+    # <enum member>.name is the member's name
+    if k == "attr" and r[2] == "name" and isinstance(r[1], tuple) and r[1] and r[1][0] == "enum":
+        return ("const", r[1][2])
+    # {k1: v1, ...}.get(key, default) on a display whose keys and the key are all closed (constants / enum members): Python's lookup by equality --
+    # a member looked up in a table keyed by names (or the reverse) finds nothing and answers the default
+    if k == "call" and isinstance(r[1], tuple) and len(r[1]) == 3 and r[1][0] == "attr" and r[1][2] == "get" and not r[3] and 1 <= len(r[2]) <= 2:
+        d0 = _plain_display(r[1][1])
+        if d0[0] == "dict" and all(_closed_key(kk) for kk, _ in d0[1]) and _closed_key(r[2][0]):
+            for kk, vv in d0[1]:
+                if kk == r[2][0]:
+                    return vv
+            return r[2][1] if len(r[2]) == 2 else NONE
+    # x in (a, b, ...) over a display of closed values
+    if k == "in" and _closed_key(r[1]):
+        d0 = _plain_display(r[2])
+        if d0[0] in ("list", "tuple", "set") and all(_closed_key(x) for x in d0[1]):
+            return TRUE if any(x == r[1] for x in d0[1]) else FALSE
     return r
 
 
